@@ -617,7 +617,12 @@ func vC13PipeHistory(r *rand.Rand) map[string]any {
 // names below it: one probe reaches the downstream, the others are answered
 // from the failure the probe re-established
 func vC13ProbeCase(r *rand.Rand) map[string]any {
-	c := New(&config.Config{CacheSize: 1024})
+	cfg := &config.Config{CacheSize: 1024}
+	cfg.ECS.Enabled = true
+	cfg.ECS.ClientNetworks = []string{"0.0.0.0/0", "::/0"}
+	cfg.ECS.ForwardV4Max = 24
+	cfg.ECS.ForwardV6Max = 56
+	c := New(cfg)
 	defer c.Stop()
 	clock := &vC13Clock{now: vC13Base}
 	c.failure.now = clock.Now
@@ -626,39 +631,58 @@ func vC13ProbeCase(r *rand.Rand) map[string]any {
 	qclass := uint16(dns.ClassINET)
 	tab := newVC13Tab()
 	c.store.RecordZoneFailure(dns.Question{Name: "seed." + zone.pres(), Qtype: dns.TypeA, Qclass: qclass}, zone.pres())
-	clock.now = clock.now.Add(c.failure.initialTTL + 1)
+	expired := vC13Base.Add(c.failure.initialTTL + 1)
+	clock.now = expired
 
+	// the cohort: distinct names below the zone, from the shared audience and from
+	// several ECS audiences, some with an expired failure of their own
+	audiences := []netip.Prefix{{}, {}, netip.MustParsePrefix("198.51.100.0/24"), netip.MustParsePrefix("203.0.113.0/24"), netip.MustParsePrefix("2001:db8:1::/48")}
+	scoped := r.Intn(3) != 0
 	n := 3 + r.Intn(6)
-	var names []vC13Name
+	type member struct {
+		key   vC13QKey
+		req   *dns.Msg
+		exact bool
+	}
+	mkReq := func(k vC13QKey) *dns.Msg {
+		req := k.req()
+		req.SetEdns0(1232, false)
+		if k.scope.IsValid() {
+			a := k.scope.Addr()
+			fam := uint16(2)
+			if a.Is4() {
+				fam = 1
+			}
+			req.IsEdns0().Option = append(req.IsEdns0().Option, &dns.EDNS0_SUBNET{Code: dns.EDNS0SUBNET, Family: fam, SourceNetmask: uint8(k.scope.Bits()), Address: net.IP(a.AsSlice())})
+		}
+		return req
+	}
+	client, _ := netip.AddrFromSlice(net.ParseIP("192.0.2.1").To4())
+	var members []member
 	var keys, ncoq []string
 	for i := 0; i < n; i++ {
 		nm := append(vC13Name{[]byte(fmt.Sprintf("p%d", i))}, zone...)
 		if i%3 == 2 {
 			nm = append(vC13Name{vC13RandLabel(r, false)}, nm...)
 		}
-		names = append(names, nm)
 		k := vC13QKey{name: nm, qtype: dns.TypeA, qclass: qclass}
+		if scoped {
+			k.scope = audiences[r.Intn(len(audiences))]
+		}
+		req := mkReq(k)
+		k.scope = c.requestScope(req, client) // the audience the cache derives
 		tab.addQuestion(k)
-		// some members have an expired failure of their own as well: the zone's
-		// generation must still decide their probe key
-		exact := i%2 == 1
-		if exact {
+		m := member{key: k, req: req, exact: i%2 == 1}
+		if m.exact {
 			clock.now = vC13Base
-			c.store.RecordFailure(k.req(), netip.Prefix{}, FailureProvenance("response"), nil)
-			clock.now = vC13Base.Add(c.failure.initialTTL + 1)
+			c.store.RecordFailure(req, k.scope, FailureProvenance("response"), nil)
+			clock.now = expired
 		}
-		ncoq = append(ncoq, fmt.Sprintf("(%s,%v)", nm.coq(), exact))
-		key, ok := c.store.FailureRetryKey(k.req(), netip.Prefix{})
-		if ok {
-			keys = append(keys, fmt.Sprintf("Some %d%%N", key))
-		} else {
-			keys = append(keys, "None")
-		}
+		members = append(members, m)
+		ncoq = append(ncoq, fmt.Sprintf("(%s,%v,%s)", nm.coq(), m.exact, vC13ScopeCoq(k.scope)))
 	}
-	// keys are read again once every member is set up
-	keys = keys[:0]
-	for _, nm := range names {
-		key, ok := c.store.FailureRetryKey(vC13QKey{name: nm, qtype: dns.TypeA, qclass: qclass}.req(), netip.Prefix{})
+	for _, m := range members {
+		key, ok := c.store.FailureRetryKey(m.req, m.key.scope)
 		if ok {
 			keys = append(keys, fmt.Sprintf("Some %d%%N", key))
 		} else {
@@ -685,30 +709,25 @@ func vC13ProbeCase(r *rand.Rand) map[string]any {
 		rcode, ede int
 	}
 	results := make(chan result, n)
-	run := func(nm vC13Name) {
-		req := vC13QKey{name: nm, qtype: dns.TypeA, qclass: qclass}.req()
-		req.SetEdns0(1232, false)
+	run := func(m member) {
 		writer := mock.NewWriter("udp", "192.0.2.1:53000")
 		chain := middleware.NewChain([]middleware.Handler{c, stub})
-		chain.Reset(writer, req)
+		chain.Reset(writer, m.req.Copy())
 		chain.Next(context.Background())
 		res := result{999, -1}
-		if m := writer.Msg(); m != nil {
-			res.rcode = m.Rcode
-			if e := dnsutil.GetEDE(m); e != nil {
+		if msg := writer.Msg(); msg != nil {
+			res.rcode = msg.Rcode
+			if e := dnsutil.GetEDE(msg); e != nil {
 				res.ede = int(e.InfoCode)
 			}
 		}
 		results <- res
 	}
-	go run(names[0])
+	go run(members[0])
 	<-entered // the probe leader is inside the downstream
-	for _, nm := range names[1:] {
-		go run(nm)
+	for _, m := range members[1:] {
+		go run(m)
 	}
-	// followers either queue behind the leader's generation (then they block
-	// until it is released) or — if single-probe election is broken — reach the
-	// downstream themselves; give them a moment to do either
 	// Followers either queue behind the leader's generation (then they block
 	// until it is released) or — if single-probe election is broken — reach the
 	// downstream themselves while the probe is still in flight.
@@ -737,11 +756,15 @@ wait:
 	late := int(calls.Load()) - before
 	total := before
 	cached += late
+	k := "probe-cohort"
+	if scoped {
+		k = "probe-cohort-ecs"
+	}
 	return map[string]any{
-		"k": "probe-cohort",
+		"k": k,
 		"coq": fmt.Sprintf("CaseProbe %s %s %d [%s] [%s] %d %d", tab.coq(), zone.coq(), qclass, strings.Join(ncoq, ";"), strings.Join(keys, ";"), total, cached),
 		"nontrivial": true,
-		"desc":       map[string]any{"zone": zone.pres(), "cohort": n, "downstream_calls": total, "answered_from_failure_cache": cached, "retry_keys": keys},
+		"desc":       map[string]any{"zone": zone.pres(), "cohort": n, "ecs_audiences": scoped, "downstream_calls_while_probe_in_flight": total, "answered_from_failure_cache": cached, "retry_keys": keys},
 	}
 }
 
@@ -754,7 +777,7 @@ func TestVerifC13Pipe(t *testing.T) {
 	for i := 0; i < n; i++ {
 		tr.emit(vC13PipeHistory(r))
 	}
-	for i := 0; i < n/20+4; i++ {
+	for i := 0; i < n/12+6; i++ {
 		tr.emit(vC13ProbeCase(r))
 	}
 }
